@@ -324,3 +324,69 @@ theorem rt_bytecode (C : Ctx) (conv : BC → Res BC) (mods : Mods) (bc : BC) (n 
   simp only [h2, h3, if_true, res_bind, rt_bcLoop C bc n hn hE, ok_bind, res_liftM]
 
 end UgoVerif.Proofs.Enc
+
+namespace UgoVerif.Proofs.Enc
+open UgoVerif.Go UgoVerif.Model.Enc UgoVerif.Gen.EncTags UgoVerif.Spec.Enc
+
+/-! ### the fuel of `decodeObject` / `decodeBytecode` (3·|input| + 16) always suffices -/
+
+theorem encodeCF_length_ge (f : CF) : 3 ≤ (encodeCF f).length := by
+  rw [encodeCF_eq]
+  have : 2 ≤ (toBytes ((cfTmp f).length : Int)).length := by simp [toBytes]; exact putUvarint_length_pos _
+  simp only [List.length_cons, List.length_append]; omega
+
+theorem toBytes_length_ge (v : Int) : 2 ≤ (toBytes v).length := by
+  simp [toBytes]; exact putUvarint_length_pos _
+
+mutual
+theorem need_le (C : Ctx) : ∀ o : Obj, need o + 1 ≤ 3 * (encodeObject C o).length
+  | .array xs => by
+    have := needL_le C xs
+    simp only [need, encodeObject]
+    split
+    · rename_i h0
+      have : xs = [] := List.eq_nil_of_length_eq_zero h0
+      subst this; simp [needL]
+    · have h1 := toBytes_length_ge ((toBytes (xs.length : Int) ++ encodeList C xs).length : Int)
+      have h2 := toBytes_length_ge (xs.length : Int)
+      simp only [List.length_cons, List.length_append] at h1 ⊢; omega
+  | .map kvs => by
+    have := needKV_le C kvs
+    have h1 := toBytes_length_ge ((encodeKVs C kvs).length : Int)
+    simp only [need, encodeObject, List.length_cons, List.length_append]; omega
+  | .syncMap true kvs => by simp [need, encodeObject]
+  | .syncMap false kvs => by
+    have := needKV_le C kvs
+    have h1 := toBytes_length_ge ((encodeKVs C kvs).length : Int)
+    simp only [need, encodeObject, List.length_cons, List.length_append]; omega
+  | .compiledFunction f => by
+    have := encodeCF_length_ge f
+    simp only [need, encodeObject]; omega
+  | .nil => by simp [need, encodeObject]
+  | .undefined => by simp [need, encodeObject]
+  | .bool true => by simp [need, encodeObject]
+  | .bool false => by simp [need, encodeObject]
+  | .int v => by have := encodeObject_length_pos C (.int v); simp only [need]; omega
+  | .uint v => by have := encodeObject_length_pos C (.uint v); simp only [need]; omega
+  | .char v => by have := encodeObject_length_pos C (.char v); simp only [need]; omega
+  | .float v => by have := encodeObject_length_pos C (.float v); simp only [need]; omega
+  | .str v => by have := encodeObject_length_pos C (.str v); simp only [need]; omega
+  | .bytes v => by have := encodeObject_length_pos C (.bytes v); simp only [need]; omega
+  | .function v => by have := encodeObject_length_pos C (.function v); simp only [need]; omega
+  | .builtinFunction v => by have := encodeObject_length_pos C (.builtinFunction v); simp only [need]; omega
+  | .gob t i => by have := encodeObject_length_pos C (.gob t i); simp only [need]; omega
+theorem needL_le (C : Ctx) : ∀ xs : List Obj, needL xs ≤ 3 * (encodeList C xs).length
+  | [] => by simp [needL]
+  | x :: xs => by
+    have h1 := need_le C x
+    have h2 := needL_le C xs
+    simp only [needL, encodeList, List.length_append]; omega
+theorem needKV_le (C : Ctx) : ∀ kvs : List (Bytes × Obj), needKV kvs ≤ 3 * (encodeKVs C kvs).length
+  | [] => by simp [needKV]
+  | (k, v) :: kvs => by
+    have h1 := need_le C v
+    have h2 := needKV_le C kvs
+    simp only [needKV, encodeKVs, List.length_append]; omega
+end
+
+end UgoVerif.Proofs.Enc
